@@ -228,6 +228,37 @@ def readSeqFrom (d : Dec I) : List (Option Str × List Bytes) → List (Except P
     let o := readBodyFrom I (setupDecompressor I d enc) ps
     o.result :: readSeqFrom o.final rest
 
+/-! ### the layer above the Stream: `Session.download` and `WebSession.download` -/
+
+/-- the parameters of `Session.download(file, raw, rewind, duration_timeout)`
+(`wpull/protocol/http/client.py`); the timeout in milliseconds -/
+structure DownloadArgs where
+  keepFile : Bool
+  raw : Bool
+  rewind : Bool
+  durationTimeout : Option Nat
+  deriving DecidableEq, Repr
+
+/-- `WebSession.download(file, duration_timeout)` (`wpull/protocol/http/web.py`)
+calls `self._current_session.download(file, duration_timeout=duration_timeout)`:
+the timeout travels by keyword, `raw` and `rewind` keep their defaults. -/
+def webDownloadArgs (keepFile : Bool) (timeout : Option Nat) : DownloadArgs :=
+  { keepFile := keepFile, raw := false, rewind := true, durationTimeout := timeout }
+
+/-- `Session.download` → `Stream.read_body(request, response, file=file, raw=raw)`
+on the session's own fresh Stream: `if not raw: self._setup_decompressor(response)`.
+(The timeout only bounds the duration; a body that arrives is not affected.) -/
+def sessionDownloadOutcome (a : DownloadArgs) (enc : Option Str) (pieces : List Bytes) : Outcome I :=
+  readBodyFrom I (if a.raw then Dec.none else setupDecompressor I .none enc) pieces
+
+def sessionDownload (a : DownloadArgs) (enc : Option Str) (pieces : List Bytes) : Except PyExc Bytes :=
+  (sessionDownloadOutcome I a enc pieces).observed I a.keepFile
+
+/-- what the crawler's fetch (`WebSession.download`) yields for a response body -/
+def webDownload (keepFile : Bool) (timeout : Option Nat) (enc : Option Str) (pieces : List Bytes) :
+    Except PyExc Bytes :=
+  sessionDownload I (webDownloadArgs keepFile timeout) enc pieces
+
 /-! ### the wrappers used on their own (`decompress`* then `flush`, zlib.error not converted) -/
 
 def gzipRunFrom (g : GzipSt I) : List Bytes → Except PyExc Bytes
